@@ -155,15 +155,90 @@ async def workflow(case):
         await srv.stop()
 
 
+async def cli_workflow(case):
+    """the same workflow driven through frontend.client.commands (what run_client.py calls), results read from stdout"""
+    import ast
+    import io
+    import os
+    import tempfile
+    from vlib import rig
+    ns = rig.modules()
+    rig.wipe()
+    import frontend.client.commands as commands
+    scheme = case["scheme"]
+    desc = S.DESCS[scheme]
+    db = json_to_db(case["jsondb"])
+    cfg = copy.deepcopy(S.public_cfg(case["cfg"]))
+    if scheme == "CGKO06.SSE2":
+        cfg["param_n"] = S.distinct_ids(db)
+    if scheme == "CGKO06.SSE1":
+        cfg["param_dictionary_size"] = max(cfg["param_dictionary_size"], len(db))
+    srv = await rig.Server().start()
+    tmp = tempfile.mkdtemp(prefix="ssepy-c09cli-")
+    try:
+        cfg_path, db_path = os.path.join(tmp, "config.json"), os.path.join(tmp, "db.json")
+        with open(cfg_path, "w") as f:
+            json.dump(cfg, f)
+        with open(db_path, "w", encoding="utf-8") as f:
+            json.dump({k: v for k, v in case["jsondb"]}, f, ensure_ascii=False)
+        sname = "svc"
+
+        async def call(fn, *a, **kw):
+            buf = io.StringIO()
+            with contextlib.redirect_stdout(buf):
+                r = fn(*a, **kw)
+                if asyncio.iscoroutine(r):
+                    await asyncio.wait_for(r, 60)
+            return buf.getvalue()
+
+        steps = [("create-service", commands.create_service, (cfg_path, sname), {}, "successfully")]
+        for step in case["plan"]:
+            steps.append({"genkey": ("generate-key", commands.generate_key, (), {"sname": sname}, "successfully"),
+                          "encrypt": ("encrypt-database", commands.encrypt_database, (db_path,), {"sname": sname}, "successfully"),
+                          "upload_config": ("upload-config", commands.upload_config, (), {"sname": sname}, "successfully"),
+                          "upload_edb": ("upload-encrypted-database", commands.upload_encrypted_database, (), {"sname": sname}, "successfully")}[step])
+        for name, fn, a, kw, marker in steps:
+            out = await call(fn, *a, **kw)
+            if marker not in out or "error" in out.lower():
+                raise Violation("%s: CLI command %s did not succeed: %r" % (scheme, name, out.strip()[-300:]), "%s:cli:%s" % (scheme, name))
+        for qi, (w_str, kind) in enumerate(case["queries"]):
+            if case.get("restart_at") is not None and qi == case["restart_at"]:
+                await srv.restart()
+            out = await call(commands.search, w_str, "hex", sname=sname)
+            line = next((l for l in out.splitlines() if "The result is" in l), None)
+            if line is None:
+                raise Violation("%s: CLI search for %s keyword %r printed no result: %r" % (scheme, kind, w_str, out.strip()[-300:]),
+                                "%s:cli:search_no_result" % scheme)
+            got = ast.literal_eval(line.split("The result is", 1)[1].strip().rstrip("."))
+            want = [h.lower() for h in dict((k, v) for k, v in case["jsondb"]).get(w_str, [])]
+            if (sorted(got) != sorted(want)) if desc.result_is_set else (got != want):
+                raise Violation("%s: CLI search for %s keyword %r printed %r, expected %r" % (scheme, kind, w_str, got, want),
+                                "%s:cli:wrong_result:%s" % (scheme, kind))
+        return 0
+    finally:
+        await srv.stop()
+        import shutil
+        shutil.rmtree(tmp, ignore_errors=True)
+
+
 def run_case(case):
     from vlib import rig
     rig.modules()
     with entropy(case["seed"]):
+        if case.get("mode") == "cli":
+            return rig.run(cli_workflow(case))
         return rig.run(workflow(case))
 
 
 # ---------------------------------------------------------------------------------------------------------
 KW_ALPHABET = "abcXYZ019 _-äßçλжשあ漢🙂"
+
+
+@st.composite
+def st_cli_case(draw, scheme):
+    c = draw(st_case(scheme))
+    c["mode"] = "cli"
+    return c
 
 
 @st.composite
@@ -233,13 +308,13 @@ def body(case, res):
     rec = case["recreate"]
     reuse = any(not r for r in rec[1:])
     nt = (any(rec[1:]) or case["restart_at"] is not None) and any(k == "absent" for _, k in case["queries"])
-    cl = ["scheme:" + case["scheme"], "plan:" + ",".join(p[0] + p[-1] for p in case["plan"]),
+    cl = ["scheme:" + case["scheme"], "driver:" + case.get("mode", "service_api"), "plan:" + ",".join(p[0] + p[-1] for p in case["plan"]),
           "restart" if case["restart_at"] is not None else "no_restart", "object_reused_somewhere" if reuse else "always_recreated"]
     if any(k == "absent" for _, k in case["queries"]):
         cl.append("has_absent_query")
     if any(any(ord(ch) > 127 for ch in k) for k, _ in case["jsondb"]):
         cl.append("non_ascii_keyword")
-    res.count([case["scheme"], sorted((k, repr(v)) for k, v in case["cfg"].items()), case["jsondb"], case["plan"], case["queries"],
+    res.count([case["scheme"], case.get("mode"), sorted((k, repr(v)) for k, v in case["cfg"].items()), case["jsondb"], case["plan"], case["queries"],
                case["recreate"], case["restart_at"]], nt, cl,
               sample={k: case[k] for k in ("scheme", "jsondb", "plan", "queries", "recreate", "restart_at")})
     run_case(case)
@@ -254,8 +329,10 @@ def shards(tier):
 
 def run_shard(spec, seed, tier):
     res = ShardResult()
-    n = 12 if tier == "quick" else 150
+    n = 40 if tier == "quick" else 300
     hyp.search(res, st_case(spec["scheme"]), body, seed, n)
+    # the same workflows through frontend.client.commands (the functions behind run_client.py), results parsed from stdout
+    hyp.search(res, st_cli_case(spec["scheme"]), body, seed + 1, 6 if tier == "quick" else 40)
     return res
 
 
